@@ -32,15 +32,38 @@ Record tysys : Type := {
   t_fmin : ty -> option ty
 }.
 
+Lemma gmax_zero n : gmax n (fun _ => 0) = 0.
+Proof.
+  unfold gmax, grid. destruct n as [|m]; [reflexivity|].
+  apply lmax_unique; [simpl; left; reflexivity|].
+  intros y Hy. apply in_map_iff in Hy. destruct Hy as [? [<- _]]. lra.
+Qed.
+Lemma gmin_zero n : gmin n (fun _ => 0) = 0.
+Proof.
+  unfold gmin. rewrite lmin_neg, map_map. unfold grid. destruct n as [|m]; [simpl; lra|].
+  rewrite (lmax_unique _ 0); [lra|simpl; left; lra|].
+  intros y Hy. apply in_map_iff in Hy. destruct Hy as [? [<- _]]. lra.
+Qed.
+
 Section Generic.
+  (* original problem: grid size n, matrix Dm, oracle fmin; transformed problem: n', Dm', fmin'.
+     For unit scalings, sign symmetries, shifts and reversals the two coincide; for the
+     field-period re-declaration (C06) the transformed grid is k times longer. *)
   Variable n : nat.
   Variable Dm : nat -> nat -> R.
   Variable fmin : (nat -> R) -> R.
+  Variable n' : nat.
+  Variable Dm' : nat -> nat -> R.
+  Variable fmin' : (nat -> R) -> R.
   Variable T : tysys.
-  Variable pi : nat -> nat.
+  Variable pi : nat -> nat.      (* maps a grid index of the transformed problem to one of the original *)
+  Variable sigma : R.            (* a grid sum over the transformed grid = sigma * the sum over the original grid *)
 
   Record tysys_ok : Prop := {
-    ok_perm : grid_perm n pi;
+    ok_range : forall j, (j < n')%nat -> (pi j < n)%nat;
+    ok_sumlaw : forall f, gsum n' (fun j => f (pi j)) = sigma * gsum n f;
+    ok_maxlaw : forall f, gmax n' (fun j => f (pi j)) = gmax n f;
+    ok_minlaw : forall f, gmin n' (fun j => f (pi j)) = gmin n f;
     ok_eqb : forall a b, t_eqb T a b = true -> chi T a = chi T b;
     ok_one : chi T (t_one T) = 1;
     ok_mul : forall a b, chi T (t_mul T a b) = chi T a * chi T b;
@@ -53,14 +76,16 @@ Section Generic.
     ok_exp : forall a b, t_exp T a = Some b -> forall x, exp (chi T a * x) = chi T b * exp x;
     ok_ext : forall a b, t_ext T a = Some b -> chi T b = chi T a /\ 0 < chi T a;
     ok_dphi : forall a b, t_dphi T a = Some b ->
-              forall j k, (j < n)%nat -> (k < n)%nat -> Dm j k * chi T a = chi T b * Dm (pi j) (pi k);
-    ok_sum : forall a b, t_sum T a = Some b -> chi T b = chi T a;
-    ok_at : forall i a b, t_at T i a = Some b -> (i < n)%nat /\ pi i = i /\ chi T b = chi T a;
+              forall (v : nat -> R) j, (j < n')%nat ->
+                gsum n' (fun k => Dm' j k * (chi T a * v (pi k))) = chi T b * gsum n (fun k => Dm (pi j) k * v k);
+    ok_sum : forall a b, t_sum T a = Some b -> chi T b = chi T a * sigma;
+    ok_at : forall i a b, t_at T i a = Some b -> (i < n')%nat /\ pi i = i /\ chi T b = chi T a;
     ok_pin : forall a b, t_pin T a = Some b ->
-             chi T b = chi T a /\ (forall j, (j < n)%nat -> Nat.eqb (pi j) 0 = Nat.eqb j 0);
+             chi T b = chi T a /\ (forall j, (j < n')%nat -> Nat.eqb (pi j) 0 = Nat.eqb j 0);
     ok_fmin : forall a b, t_fmin T a = Some b -> forall v v',
-              (forall j, (j < n)%nat -> v' j = chi T a * v (pi j)) -> fmin v' = chi T b * fmin v;
-    ok_fmin0 : forall v, (forall j, v j = 0) -> fmin v = 0
+              (forall j, (j < n')%nat -> v' j = chi T a * v (pi j)) -> fmin' v' = chi T b * fmin v;
+    ok_fmin0 : (forall v, (forall j, v j = 0) -> fmin v = 0) /\ (forall v, (forall j, v j = 0) -> fmin' v = 0);
+    ok_zero_grid : (n = 0)%nat <-> (n' = 0)%nat
   }.
 
   Definition tyz := option (ty T).          (* None = identically zero *)
@@ -137,7 +162,7 @@ Section Generic.
   Definition vrel (t : tyz) (v v' : nat -> R) : Prop :=
     match t with
     | None => (forall j, v j = 0) /\ (forall j, v' j = 0)
-    | Some a => forall j, (j < n)%nat -> v' j = chi T a * v (pi j)
+    | Some a => forall j, (j < n')%nat -> v' j = chi T a * v (pi j)
     end.
 
   Definition env_rel (G : tenv) (rho rho' : env) : Prop :=
@@ -148,8 +173,8 @@ Section Generic.
   Lemma chi_tpow a k : chi T (tpow a k) = chi T a ^ k.
   Proof. induction k as [|k IH]; simpl; [apply (ok_one OK)|rewrite (ok_mul OK), IH; reflexivity]. Qed.
 
-  Lemma pi_lt j : (j < n)%nat -> (pi j < n)%nat.
-  Proof. apply pi_in_grid. apply (ok_perm OK). Qed.
+  Lemma pi_lt j : (j < n')%nat -> (pi j < n)%nat.
+  Proof. apply (ok_range OK). Qed.
 
   Ltac inv_lift H :=
     unfold lift1 in H;
@@ -158,7 +183,7 @@ Section Generic.
     end.
 
   Theorem infer_sound G rho rho' : env_rel G rho rho' ->
-    forall e t, infer G e = Some t -> vrel t (eval n Dm fmin rho e) (eval n Dm fmin rho' e).
+    forall e t, infer G e = Some t -> vrel t (eval n Dm fmin rho e) (eval n' Dm' fmin' rho' e).
   Proof.
     intros HG e. induction e as
       [q| | |x|a IHa|a IHa b IHb|a IHa b IHb|a IHa b IHb|a IHa b IHb|a IHa k
@@ -257,51 +282,37 @@ Section Generic.
     - (* Dphi *) inv_lift Ht.
       + destruct (t_dphi T ta) as [tb|] eqn:Eb; [|discriminate]. injection Ht as <-.
         specialize (IHa _ eq_refl). simpl in *. intros j Hj.
-        rewrite <- (gsum_reindex n pi (fun k => Dm (pi j) k * eval n Dm fmin rho a k) (ok_perm OK)).
-        rewrite <- gsum_scal. apply gsum_ext. intros k Hk.
-        rewrite IHa by exact Hk. rewrite <- Rmult_assoc, (ok_dphi OK _ _ Eb j k Hj Hk). ring.
+        rewrite <- (ok_dphi OK _ _ Eb (eval n Dm fmin rho a) j Hj).
+        apply gsum_ext. intros k Hk. rewrite IHa by exact Hk. reflexivity.
       + injection Ht as <-. specialize (IHa _ eq_refl). simpl in *. destruct IHa as [H1 H2].
         split; intros j; apply gsum_zero; intros k _; [rewrite H1|rewrite H2]; ring.
     - (* Sum *) inv_lift Ht.
       + destruct (t_sum T ta) as [tb|] eqn:Eb; [|discriminate]. injection Ht as <-.
         specialize (IHa _ eq_refl). simpl in *. intros j Hj.
-        rewrite <- (gsum_reindex n pi (fun k => eval n Dm fmin rho a k) (ok_perm OK)).
-        rewrite <- gsum_scal. apply gsum_ext. intros k Hk.
-        rewrite IHa by exact Hk. rewrite (ok_sum OK _ _ Eb). reflexivity.
+        rewrite (ok_sum OK _ _ Eb). rewrite Rmult_assoc. rewrite <- (ok_sumlaw OK (fun k => eval n Dm fmin rho a k)).
+        rewrite <- gsum_scal. apply gsum_ext. intros k Hk. apply IHa; exact Hk.
       + injection Ht as <-. specialize (IHa _ eq_refl). simpl in *. destruct IHa as [H1 H2].
         split; intros j; apply gsum_zero; intros k _; [rewrite H1|rewrite H2]; ring.
     - (* MaxG *) inv_lift Ht.
       + destruct (t_ext T ta) as [tb|] eqn:Eb; [|discriminate]. injection Ht as <-.
         specialize (IHa _ eq_refl). simpl in *. intros j Hj.
         destruct (ok_ext OK _ _ Eb) as [Hc Hp]. rewrite Hc.
-        rewrite <- (gmax_reindex n pi (fun k => eval n Dm fmin rho a k) (ok_perm OK)).
+        rewrite <- (ok_maxlaw OK (fun k => eval n Dm fmin rho a k)).
         rewrite <- gmax_scal by exact Hp. apply gmax_ext. intros k Hk. apply IHa; exact Hk.
       + injection Ht as <-. specialize (IHa _ eq_refl). simpl in *. destruct IHa as [H1 H2].
         split; intros j.
-        * rewrite (gmax_ext n _ (fun _ => 0)) by (intros; apply H1).
-          unfold gmax, grid. destruct n as [|m]; [reflexivity|].
-          apply lmax_unique; [simpl; left; reflexivity|].
-          intros y Hy. apply in_map_iff in Hy. destruct Hy as [? [<- _]]. lra.
-        * rewrite (gmax_ext n _ (fun _ => 0)) by (intros; apply H2).
-          unfold gmax, grid. destruct n as [|m]; [reflexivity|].
-          apply lmax_unique; [simpl; left; reflexivity|].
-          intros y Hy. apply in_map_iff in Hy. destruct Hy as [? [<- _]]. lra.
+        * rewrite (gmax_ext n _ (fun _ => 0)) by (intros; apply H1). apply gmax_zero.
+        * rewrite (gmax_ext n' _ (fun _ => 0)) by (intros; apply H2). apply gmax_zero.
     - (* MinG *) inv_lift Ht.
       + destruct (t_ext T ta) as [tb|] eqn:Eb; [|discriminate]. injection Ht as <-.
         specialize (IHa _ eq_refl). simpl in *. intros j Hj.
         destruct (ok_ext OK _ _ Eb) as [Hc Hp]. rewrite Hc.
-        rewrite <- (gmin_reindex n pi (fun k => eval n Dm fmin rho a k) (ok_perm OK)).
+        rewrite <- (ok_minlaw OK (fun k => eval n Dm fmin rho a k)).
         rewrite <- gmin_scal by exact Hp. apply gmin_ext. intros k Hk. apply IHa; exact Hk.
       + injection Ht as <-. specialize (IHa _ eq_refl). simpl in *. destruct IHa as [H1 H2].
         split; intros j.
-        * rewrite (gmin_ext n _ (fun _ => 0)) by (intros; apply H1).
-          unfold gmin. rewrite lmin_neg, map_map. unfold grid. destruct n as [|m]; [simpl; lra|].
-          rewrite (lmax_unique _ 0); [lra|simpl; left; lra|].
-          intros y Hy. apply in_map_iff in Hy. destruct Hy as [? [<- _]]. lra.
-        * rewrite (gmin_ext n _ (fun _ => 0)) by (intros; apply H2).
-          unfold gmin. rewrite lmin_neg, map_map. unfold grid. destruct n as [|m]; [simpl; lra|].
-          rewrite (lmax_unique _ 0); [lra|simpl; left; lra|].
-          intros y Hy. apply in_map_iff in Hy. destruct Hy as [? [<- _]]. lra.
+        * rewrite (gmin_ext n _ (fun _ => 0)) by (intros; apply H1). apply gmin_zero.
+        * rewrite (gmin_ext n' _ (fun _ => 0)) by (intros; apply H2). apply gmin_zero.
     - (* At *) inv_lift Ht.
       + destruct (t_at T i ta) as [tb|] eqn:Eb; [|discriminate]. injection Ht as <-.
         specialize (IHa _ eq_refl). simpl in *. intros j Hj.
@@ -332,7 +343,7 @@ Section Generic.
         specialize (IHa _ eq_refl). simpl in *. intros j Hj.
         apply (ok_fmin OK _ _ Eb). exact IHa.
       + injection Ht as <-. specialize (IHa _ eq_refl). simpl in *. destruct IHa as [H1 H2].
-        split; intros j; apply (ok_fmin0 OK); assumption.
+        split; intros j; [apply (proj1 (ok_fmin0 OK))|apply (proj2 (ok_fmin0 OK))]; assumption.
   Qed.
 
   (* ---------- programs ---------- *)
@@ -346,7 +357,7 @@ Section Generic.
     end.
 
   Theorem infer_prog_sound p : forall G rho rho', env_rel G rho rho' ->
-    env_rel (infer_prog G p) (run n Dm fmin p rho) (run n Dm fmin p rho').
+    env_rel (infer_prog G p) (run n Dm fmin p rho) (run n' Dm' fmin' p rho').
   Proof.
     induction p as [|[x e] p IH]; intros G rho rho' HG; simpl; [exact HG|].
     apply IH. intros y t. unfold updG, upd. destruct (String.eqb y x).
@@ -372,7 +383,7 @@ Section Generic.
     env_rel G rho rho' ->
     check_outputs (infer_prog G p) outs = true ->
     forall x t, In (x, t) outs ->
-    forall j, (j < n)%nat -> run n Dm fmin p rho' x j = chi T t * run n Dm fmin p rho x (pi j).
+    forall j, (j < n')%nat -> run n' Dm' fmin' p rho' x j = chi T t * run n Dm fmin p rho x (pi j).
   Proof.
     intros HG Hc x t Hin j Hj. unfold check_outputs in Hc. rewrite forallb_forall in Hc.
     specialize (Hc _ Hin). simpl in Hc. unfold has_ty in Hc.
@@ -398,7 +409,7 @@ Section Generic.
     check_typed (infer_prog G p) eqs = true ->
     forall x, In x eqs ->
     (forall j, (j < n)%nat -> run n Dm fmin p rho x j = 0) ->
-    forall j, (j < n)%nat -> run n Dm fmin p rho' x j = 0.
+    forall j, (j < n')%nat -> run n' Dm' fmin' p rho' x j = 0.
   Proof.
     intros HG Hc x Hin H0 j Hj. unfold check_typed in Hc. rewrite forallb_forall in Hc.
     specialize (Hc _ Hin). unfold is_typed in Hc.
@@ -409,6 +420,32 @@ Section Generic.
     - specialize (HR x _ E). simpl in HR. destruct HR as [H1 H2]. apply H2.
   Qed.
 End Generic.
+
+(* ---- the common case: same grid, pi a permutation of it ---- *)
+Section SameGrid.
+  Variable n : nat.
+  Variable Dm : nat -> nat -> R.
+  Variable pi : nat -> nat.
+  Hypothesis HP : grid_perm n pi.
+  Lemma perm_range : forall j, (j < n)%nat -> (pi j < n)%nat.
+  Proof. apply pi_in_grid. exact HP. Qed.
+  Lemma perm_sumlaw : forall f, gsum n (fun j => f (pi j)) = 1 * gsum n f.
+  Proof. intros f. rewrite (gsum_reindex n pi f HP). ring. Qed.
+  Lemma perm_maxlaw : forall f, gmax n (fun j => f (pi j)) = gmax n f.
+  Proof. intros f. apply gmax_reindex. exact HP. Qed.
+  Lemma perm_minlaw : forall f, gmin n (fun j => f (pi j)) = gmin n f.
+  Proof. intros f. apply gmin_reindex. exact HP. Qed.
+  Lemma perm_dphi (ca cb : R) :
+    (forall j k, (j < n)%nat -> (k < n)%nat -> Dm j k * ca = cb * Dm (pi j) (pi k)) ->
+    forall (v : nat -> R) j, (j < n)%nat ->
+      gsum n (fun k => Dm j k * (ca * v (pi k))) = cb * gsum n (fun k => Dm (pi j) k * v k).
+  Proof.
+    intros H v j Hj.
+    rewrite <- (gsum_reindex n pi (fun k => Dm (pi j) k * v k) HP).
+    rewrite <- gsum_scal. apply gsum_ext. intros k Hk.
+    rewrite <- Rmult_assoc, (H j k Hj Hk). ring.
+  Qed.
+End SameGrid.
 
 (* building type environments from association lists *)
 Fixpoint assoc_env {A} (l : list (string * A)) : string -> option A :=
